@@ -287,8 +287,9 @@ let run_case (x : sx) : Stdlib.String.t =
                     | L (A "4" :: inner) -> RRec (plain inner)
                     | L l -> RPlain (plain l)
                     | _ -> failwith "bad step") steps in
-                  let text = match getf "nodollar", ks with
-                    | [A "1"], RPlain s0 :: rest -> chain_path0 s0 rest
+                  let text = match getf "nodollar", getf "pad", ks with
+                    | [A "1"], _, RPlain s0 :: rest -> chain_path0 s0 rest
+                    | _, [A a; A b], _ -> padded_path (nat_of_int (int_of_string a)) (nat_of_int (int_of_string b)) ks
                     | _ -> chain_path ks in
                   Buffer.add_string b (if text = path then "\tKP=1" else "\tKP=0"));
              if not (wf_node t) then Buffer.add_string b "\tWF=0";
